@@ -16,7 +16,8 @@ RULE = ("all 3 dash variants x 3 generation modes x 2 nested modes x {parse(), A
         "spelling documented for another configuration but not this one must be rejected unless it abbreviates a registered option. "
         "The configuration x API x tree space is enumerated completely in both tiers; alias assignments are sampled from VERIF_SEED "
         "(more assignments in the thorough tier). Non-trivial = every case (each is a distinct configuration/field pair).")
-TRUSTED = ["argparse abbreviation matching is not modelled: spellings that are a prefix of a registered option are excluded from the 'rejected' probe"]
+TRUSTED = ["Model/MiniPy.v (the interpreter is the reading of Python for the dumped body of FieldWrapper.option_strings; itself checked against CPython by ./check MINIPY) and harness/translate/minipy.py (syntax-to-syntax dump, fail closed)",
+           "argparse abbreviation matching is not modelled: spellings that are a prefix of a registered option are excluded from the 'rejected' probe"]
 ASSUMPTIONS = ["field names clash with nothing (the conflict resolver is not involved: prefix is empty)"]
 EXHAUSTIVE = {"quick": False, "thorough": False}
 
